@@ -1787,7 +1787,8 @@ method or constructor of some type."""
                     break
         if param_matched:
             node.sync_func = candidate_method.name
-            candidate_method.async_func = node.name
+            if candidate_method.async_func is None:
+                candidate_method.async_func = node.name
             return
 
     def _match_class_async_methods(self, methods):
@@ -1860,7 +1861,8 @@ method or constructor of some type."""
                             break
                 if param_matched:
                     method.sync_func = candidate_method.name
-                    candidate_method.async_func = method.name
+                    if candidate_method.async_func is None:
+                        candidate_method.async_func = method.name
                     break
 
     def _pass3_callable_callbacks(self, node):
